@@ -67,3 +67,121 @@ def stage_fp_valid(pid, seed, tier, workdir):
     res["samples"] = [{"op": f"{op} {' '.join(v)}", "model": ml.get(f"fpv.{i}")} for i, (op, v) in list(enumerate(lines, 1))[5:8]]
     res["notes"] = {"scalar": "double", "lines": len(lines)}
     return res
+
+
+# ---------------------------------------------------------------------------
+# C16: floating-point results against the exact value and its magnitude (pair world)
+# ---------------------------------------------------------------------------
+EPS = {"float": Fr(1, 2 ** 23), "double": Fr(1, 2 ** 52), "ldouble": Fr(1, 2 ** 63)}
+
+
+def hex_to_fraction(t):
+    """exact value of a C99 hex float literal (%a / %La output)"""
+    t = t.strip().lower()
+    if t in ("nan", "-nan", "inf", "-inf"):
+        return None
+    neg = t.startswith("-")
+    t = t.lstrip("+-")
+    assert t.startswith("0x"), t
+    mant, _, ex = t[2:].partition("p")
+    ip, _, fp = mant.partition(".")
+    val = Fr(int(ip + fp, 16), 16 ** len(fp))
+    val *= Fr(2) ** int(ex or 0)
+    return -val if neg else val
+
+
+def compare_fp_line(pair_line, fp_line, eps):
+    """returns (ok, worst ratio, message)"""
+    pt, ft = pair_line.split(), (fp_line or "").split()
+    if len(pt) != len(ft):
+        return False, None, "different shape"
+    worst = Fr(0)
+    for a, b in zip(pt, ft):
+        if "~" in a:
+            v, m = (Fr(x) for x in a.split("~"))
+            try:
+                x = hex_to_fraction(b)
+            except Exception:
+                return False, None, f"token {b} is not a hex float"
+            if x is None:
+                return False, None, f"non-finite result {b}"
+            err = abs(x - v)
+            if m == 0:
+                if err != 0:
+                    return False, None, f"value {b} where the exact result is 0 with zero magnitude"
+                continue
+            ratio = err / (eps * m)
+            worst = max(worst, ratio)
+            if ratio > 2 ** 20:
+                return False, ratio, f"|fl - exact| = {float(err):.3e} > 2^20 eps S (S = {float(m):.3e}, ratio {float(ratio):.3e} eps S)"
+        elif a != b:
+            try:
+                # grid points / inputs are printed as hex floats as well: compare exactly
+                if hex_to_fraction(b) == Fr(a):
+                    continue
+            except Exception:
+                pass
+            return False, None, f"token {a} vs {b}"
+    return True, worst, ""
+
+
+def stage_fp_round(pid, seed, tier, workdir):
+    import props
+    cases = props.gen_C16(seed, tier)
+    casefile = os.path.join(workdir, "cases.txt")
+    res = {"diffs": [], "infra": [], "evaluations": 0, "samples": [], "nontrivial": [], "notes": {}}
+    ok, drv, log = pipeline.build_model()
+    if not ok:
+        res["infra"].append(("model does not build", log[-3000:]))
+        return res
+    rc, out, _ = pipeline.sh([drv, "--pair", casefile])
+    pl = {}
+    for ln in out.splitlines():
+        k, _, v = ln.partition(" ")
+        pl[k] = v
+    variants = ["fp_float", "fp_double", "fp_ldouble", "fp_double_checks"] if tier == "quick" else \
+        ["fp_float", "fp_double", "fp_ldouble", "fp_double_checks", "fp_float_O2", "fp_double_O2", "fp_ldouble_O2"]
+    outs = {}
+    worst = {}
+    for v in variants:
+        ok, binp, log = pipeline.build_harness(cases, workdir, v)
+        if not ok:
+            res["infra"].append((f"harness[{v}] does not build against {REPO}", log[-6000:]))
+            continue
+        hl, crashes = pipeline.run_harness(binp)
+        outs[v] = hl
+        eps = EPS["float" if "float" in v else "ldouble" if "ldouble" in v else "double"]
+        w = Fr(0)
+        for c in cases:
+            for i, text in enumerate(c.lines, 1):
+                k = f"{c.cid}.{i}"
+                if k not in pl:
+                    continue
+                res["evaluations"] += 1
+                if not pl[k].startswith("OK"):
+                    if pl[k] != hl.get(k):
+                        res["diffs"].append({"variant": v, "case": c.cid, "line": i, "op": text, "model": pl[k], "impl": hl.get(k),
+                                             "history": c.lines[:i], "oracle": "fails", "explanation": "outcome differs"})
+                    continue
+                okc, ratio, msg = compare_fp_line(pl[k], hl.get(k), eps)
+                if ratio is not None:
+                    w = max(w, ratio)
+                if "~" in pl[k]:
+                    res["nontrivial"].append(v + " " + text)
+                if not okc:
+                    res["diffs"].append({"variant": v, "case": c.cid, "line": i, "op": text, "model": pl[k][:400], "impl": (hl.get(k) or "")[:400],
+                                         "history": c.lines[:i], "oracle": "fails",
+                                         "explanation": f"{v}: {msg}; the exact value and S come from the proved model run over the pair world"})
+        worst[v] = float(w)
+    # the optional self-checks must not change any value: bit-identical outputs
+    if "fp_double" in outs and "fp_double_checks" in outs:
+        for k, val in outs["fp_double"].items():
+            if outs["fp_double_checks"].get(k) != val:
+                cid, _, i = k.rpartition(".")
+                c = next(c for c in cases if c.cid == cid)
+                res["diffs"].append({"variant": "fp_double_checks", "case": cid, "line": int(i), "op": c.lines[int(i) - 1],
+                                     "model": val[:300], "impl": (outs["fp_double_checks"].get(k) or "")[:300], "history": c.lines[:int(i)],
+                                     "oracle": "fails", "explanation": "values differ between builds with and without BSPLINE_ADD_TEST_CHECKS"})
+    res["notes"] = {"worst_error_in_units_of_eps_times_S": worst, "threshold": 2 ** 20, "variants": variants}
+    res["samples"] = [{"op": cases[0].lines[1][:200], "pair_model": pl.get(f"{cases[0].cid}.2", "")[:200]}]
+    return res
